@@ -25,7 +25,7 @@ def environment(chk, prog):
     r = ev.eval_fn(E.methods["get"], E.module, E)
     got = Arms()
     for conds, ret in r.returns:
-        got["lit" if any(is_t(t, "isinst") and t[2] == "Literal" and p for t, p in conds) else "var"] = ret
+        got["lit" if any(is_t(t, "isinst") and t[1] == VAR and t[2] == "Literal" and p for t, p in conds) else "var"] = ret
     ok = got.get("lit") == ("attr", VAR, "val") and got.get("var") == ("call", ("attr", ("attr", SELF, "env"), "get"), (("attr", VAR, "count"),), ())
     chk.require(ok, "ENV", "Environment.get", "literals evaluate to their value; variables by count", derived={k: show(v) for k, v in got.items()}.__str__(), expected="var.val / self.env.get(var.count)", where=W("get"))
     r = ev.eval_fn(E.methods["write"], E.module, E)
@@ -33,9 +33,9 @@ def environment(chk, prog):
     wrote = None
     for conds, ret in r.returns:
         pos = [t for t, p in conds if p]
-        if any(is_t(t, "isinst") and t[2] == "Literal" for t in pos):
+        if any(is_t(t, "isinst") and t[1] == VAR and t[2] == "Literal" for t in pos):
             got["lit"] = ret
-        elif any(is_t(t, "isinst") and "DropVar" in t[2] for t in pos):
+        elif any(is_t(t, "isinst") and t[1] == VAR and "DropVar" in t[2] for t in pos):
             got["drop"] = ret
         else:
             got["var"] = ret
